@@ -495,6 +495,11 @@ func (c *FnCtx) evalSpecBuiltin(x *ast.CallExpr, fobj *types.Func, st *State) st
 	case "V_sameslice":
 		a, b := c.eval(x.Args[0], st), c.eval(x.Args[1], st)
 		return and(eq("(sbase "+a+")", "(sbase "+b+")"), eq("(soff "+a+")", "(soff "+b+")"), eq("(slen "+a+")", "(slen "+b+")"))
+	case "V_nonNilPayload":
+		// an interface value that is nil or holds a non-nil pointer (not a typed nil)
+		v := c.eval(x.Args[0], st)
+		v = c.convertTo(v, c.typeOf(x.Args[0]), types.NewInterfaceType(nil, nil), st)
+		return or(eq(v, "inil"), not(eq("(iref "+v+")", "0")))
 	case "V_fnv32":
 		c.declareFun("fnv32", []string{sString}, sInt)
 		return "(fnv32 " + c.eval(x.Args[0], st) + ")"
